@@ -4,25 +4,23 @@ import Gws.Model.Conc.TaskQueue
 # T3 — the critical section of `workerQueue.getJob` (task.go), translated from the source on every run, equals
 `TQ.getJob`, the atomic action of the transition system C15 is proved about.
 -/
+set_option linter.unusedSimpArgs false
+
 namespace TransEquiv
 
+/-- proved by splitting on the three things the function looks at (is there a new job, is the worker limit reached, is
+the queue empty) and normalising both sides: independent of how the Go code nests its conditions -/
 theorem getJob_eq (s : TQ) (newJob : Option Nat) (delta : Int) :
-    Trans.workerQueue_getJob newJob delta s.q s.cur s.max
+    Trans.workerQueue_getJob newJob delta (c_q := s.q) (c_curConcurrency := s.cur) (c_maxConcurrency := s.max)
       = ((s.getJob newJob delta).1.cur, (s.getJob newJob delta).1.q, (s.getJob newJob delta).2) := by
   unfold Trans.workerQueue_getJob TQ.getJob
-  have hq : (if (newJob != none) = true then s.q ++ newJob.toList else s.q) = TQ.enq s.q newJob := by
-    cases newJob <;> simp [TQ.enq]
-  simp only [hq]
-  generalize TQ.enq s.q newJob = q1
-  by_cases h : s.cur + delta ≥ s.max
-  · simp [h]
-  · simp only [h, decide_false, Bool.false_eq_true, ↓reduceIte]
-    cases q1 with
-    | nil => simp
-    | cons j rest => simp
+  cases newJob <;> cases hq : s.q <;> simp only [TQ.enq, List.nil_append, List.cons_append, Option.toList, bne_self_eq_false,
+      Bool.false_eq_true, ↓reduceIte, List.head?, List.tail, ne_eq, reduceCtorEq, not_false_eq_true, bne_iff_ne, not_true_eq_false,
+      decide_eq_true_eq, List.append_nil, beq_iff_eq] <;>
+    (repeat' split) <;> (first | rfl | (exfalso; omega) | (simp_all; done) | (simp_all <;> omega))
 
-example : Trans.workerQueue_getJob (some 7) 0 [] 0 1 = (1, [], some 7) := by decide
-example : Trans.workerQueue_getJob (some 8) 0 [] 1 1 = (1, [8], none) := by decide
-example : Trans.workerQueue_getJob none (-1) [8] 1 1 = (1, [], some 8) := by decide
+example : Trans.workerQueue_getJob (some 7) 0 (c_q := []) (c_curConcurrency := 0) (c_maxConcurrency := 1) = (1, [], some 7) := by decide
+example : Trans.workerQueue_getJob (some 8) 0 (c_q := []) (c_curConcurrency := 1) (c_maxConcurrency := 1) = (1, [8], none) := by decide
+example : Trans.workerQueue_getJob none (-1) (c_q := [8]) (c_curConcurrency := 1) (c_maxConcurrency := 1) = (1, [], some 8) := by decide
 
 end TransEquiv
